@@ -365,6 +365,128 @@ def parse_sql(text):
 
 
 # ---------------------------------------------------------------------------------------------
+# regular expressions: pattern text (RE2 syntax, the fragment of coq/model/PromRegex.v) -> re tree
+# ---------------------------------------------------------------------------------------------
+class ReUnsupported(Exception):
+    pass
+
+
+RE_META = set("\\.+*?()|[]{}^$")
+
+
+def parse_regex(text):
+    """the tree of model/PromRegex.v for a pattern of the fragment (literals, escaped metacharacters, `.`, `|`, `(..)`, `(?:..)`,
+    one `* + ?` per atom, `^`, `$`); ReUnsupported otherwise. Not trusted: the model checks re_wf and re_print tree = text."""
+    pos = 0
+    n = len(text)
+
+    def alt():
+        nonlocal pos
+        branches = [branch()]
+        while pos < n and text[pos] == "|":
+            pos += 1
+            branches.append(branch())
+        e = branches[-1]
+        for b in reversed(branches[:-1]):
+            e = ("RAlt", b, e)
+        return e
+
+    def branch():
+        nonlocal pos
+        items = []
+        while pos < n and text[pos] not in "|)":
+            items += item()
+        if not items:
+            return ("REps",)
+        e = items[-1]
+        for x in reversed(items[:-1]):
+            e = ("RCat", x, e)
+        return e
+
+    def item():
+        nonlocal pos
+        ch = text[pos]
+        if ch == "(":
+            if text.startswith("(?:", pos):
+                pos += 3
+                kind = "RGrp"
+            elif text.startswith("(?", pos):
+                raise ReUnsupported("group flags")
+            else:
+                pos += 1
+                kind = "RCap"
+            body = alt()
+            if pos >= n or text[pos] != ")":
+                raise ReUnsupported("unclosed group")
+            pos += 1
+            atoms = [(kind, body)]
+        elif ch == ".":
+            pos += 1
+            atoms = [("RAny",)]
+        elif ch in "^$":
+            pos += 1
+            if pos < n and text[pos] in "*+?{":
+                raise ReUnsupported("repeated anchor")
+            return [("RBol",) if ch == "^" else ("REol",)]
+        elif ch == "\\":
+            if pos + 1 >= n or text[pos + 1] not in RE_META:
+                raise ReUnsupported("escape")
+            atoms = [("RChr", ord(text[pos + 1]))]
+            pos += 2
+        elif ch in RE_META:
+            raise ReUnsupported("metacharacter " + ch)
+        else:
+            pos += 1
+            atoms = [("RChr", b) for b in ch.encode("utf8", "surrogateescape")]
+        if pos < n and text[pos] in "*+?":
+            if len(atoms) != 1:
+                raise ReUnsupported("repetition of a multi-byte character")
+            atoms = [({"*": "RStar", "+": "RPlus", "?": "ROpt"}[text[pos]], atoms[0])]
+            pos += 1
+            if pos < n and text[pos] in "*+?":
+                raise ReUnsupported("lazy / stacked repetition")
+        if pos < n and text[pos] == "{":
+            raise ReUnsupported("counted repetition")
+        return atoms
+
+    e = alt()
+    if pos != n:
+        raise ReUnsupported("unbalanced )")
+    return e
+
+
+def sx_re(e):
+    if len(e) == 1:
+        return e[0]
+    if e[0] == "RChr":
+        return "(RChr %d)" % e[1]
+    return "(%s %s)" % (e[0], " ".join(sx_re(x) for x in e[1:]))
+
+
+def regex_lines(cases, base):
+    """one line per distinct pattern of the oracle tables of the cases: (pattern, [(value, search, full)])"""
+    pats = {}
+    for c in cases:
+        tables = [c.get("oracle") or []] + [m.get("oracle") or [] for m in c.get("members") or []]
+        for t in tables:
+            for e in t:
+                if e.get("anch"):
+                    continue
+                pats.setdefault(e["p"], {})[e["v"]] = (bool(e.get("search")), bool(e.get("full")))
+    lines, index, outside = [], {}, []
+    for k, (p, vals) in enumerate(sorted(pats.items())):
+        try:
+            tree = parse_regex(p)
+        except (ReUnsupported, RecursionError) as ex:
+            outside.append(p)
+            continue
+        vs = sorted(vals)
+        index[base + k] = (p, vs, [vals[v] for v in vs])
+        lines.append("(re %d %s %s %s)" % (base + k, sx_re(tree), sx_str(p), sx_list([sx_str(v) for v in vs])))
+    return lines, index, outside
+
+
+# ---------------------------------------------------------------------------------------------
 # emission: one S-expression per case, read by ocaml/promsel_driver.ml
 # atoms: decimal integers, t / f, none, constructor names, strings as h<hex bytes>
 # ---------------------------------------------------------------------------------------------
@@ -744,6 +866,8 @@ def run_shard(ck, cases, idx):
                     cid, cl, sx_hints(h), sx_matchers(c.get("ms")), sx_db(c["db"]), tree, sx_str(c["sql"]),
                     sx_list(["(%s %s %s)" % (sx_str(e["p"]), sx_str(e["v"]), sx_bool(e["search"])) for e in orc]),
                     sx_list(["(%s %s %s)" % (sx_str(e["p"]), sx_str(e["v"]), sx_bool(e["full"])) for e in orc if not e.get("anch")])))
+    re_lines, re_index, re_outside = regex_lines(cases, 2000000000)
+    lines += re_lines
     data = os.path.join(ck.work, "promsel_cases_%d.sx" % idx)
     with open(data, "w") as f:
         f.write("\n".join(lines) + "\n")
@@ -755,7 +879,7 @@ def run_shard(ck, cases, idx):
     if rc != 0:
         ck.obligation("selection cases evaluated by the extracted models", False, out[-2500:])
         return False
-    res = {"sql": {}, "prof": {}, "lbl": {}, "sel": {}, "sem": {}, "psem": {}, "down": {}}
+    res = {"sql": {}, "prof": {}, "lbl": {}, "sel": {}, "sem": {}, "psem": {}, "down": {}, "re": {}}
     for ln in out.splitlines():
         p = ln.split()
         if len(p) >= 3 and p[0] in res:
@@ -763,6 +887,31 @@ def run_shard(ck, cases, idx):
 
     def dec(x):
         return None if x == "-" else bytes.fromhex(x)
+
+    # ---- 0. the regular-expression reading model/PromRegex.v against Go's regexp and labels.Matcher
+    re_bad, re_pairs = [], 0
+    for rid, (p, vs, want) in re_index.items():
+        got = res["re"].get(rid)
+        if got is None or got[0] != "1":
+            re_bad.append({"pattern": p, "problem": "the parse of the pattern is not well-formed or does not print back to its text"})
+            continue
+        for v, w, g in zip(vs, want, got[1:]):
+            re_pairs += 1
+            if (g[0] == "1", g[1] == "1") != w:
+                re_bad.append({"pattern": p, "value": v, "model_search": g[0] == "1", "go_regexp_MatchString": w[0],
+                               "model_prometheus": g[1] == "1", "go_anchored_match": w[1]})
+    st = ck.extra.setdefault("regex_model_tie", {"patterns_in_fragment": 0, "pairs": 0, "patterns_outside_fragment": {}})
+    st["patterns_in_fragment"] += len(re_index)
+    st["pairs"] += re_pairs
+    for p in re_outside:
+        st["patterns_outside_fragment"][p] = st["patterns_outside_fragment"].get(p, 0) + 1
+    ck.obligation("regular-expression model PromRegex.v = Go regexp.MatchString (search) and labels.Matcher.Matches / ^(?:v)$ (Prometheus) on %d "
+                  "(pattern, label value) pairs of %d generated patterns of the fragment (%d patterns outside it: classes, \\d)" % (re_pairs, len(re_index), len(set(re_outside))),
+                  not re_bad, json.dumps(re_bad[:3]))
+    if re_bad:
+        ck.violation({"property": "C17", "part": "regex-model", "kind": "the regular-expression reading of the model and Go's regexp disagree",
+                      "witness": re_bad[0], "replay": "regexp.MatchString(pattern, value) / labels.NewMatcher(MatchRegexp, n, pattern).Matches(value) against PromRegex.re_search / re_prom"},
+                     no_input="value" not in re_bad[0])
 
     # ---- 1. SQL text
     mism = []
@@ -890,12 +1039,22 @@ def run_shard(ck, cases, idx):
                 if c["kind"] == "prof":
                     return (len(c.get("sels") or []), len(c.get("pdb") or []), 0)
                 return (len(c.get("ms") or []), len(c["db"].get("series") or []), len(c["db"].get("samples") or []))
-            worst = min(bad[code], key=size)
-            ck.violation({"property": "C17", "part": "selection", "kind": VERDICTS[code],
+            # a pattern inside the implementation's match() that the case's oracle table does not hold is answered `false` by
+            # the interpreter (a default, not RE2's answer): prefer a failing case without such a pattern; if every one has
+            # it, the matcher set + database are still printed, but the replay is not claimed to be a failing input
+            def oracle_gap(c):
+                known_p = {e["p"] for e in c.get("oracle") or []}
+                pats = [unquote("'" + m + "'") for m in re.findall(r"match\([A-Za-z_.]+, '((?:[^'\\]|\\.)*)'\)", c.get("sql") or "")]
+                return sorted(set(x for x in pats if x not in known_p))
+            worst = min(bad[code], key=lambda c: (bool(oracle_gap(c)),) + size(c))
+            gap = oracle_gap(worst)
+            if gap:
+                ck.log("the failing statements carry match() patterns outside the oracle table (answered false by default): %s" % gap[:3])
+            ck.violation({"property": "C17", "part": "selection", "kind": VERDICTS[code], "patterns_outside_oracle_table": gap,
                           "matchers": worst.get("ms") or worst.get("sels"), "hints": worst.get("hints"),
                           "database": worst.get("db") or worst.get("pdb"), "sql": worst["sql"],
                           "case": slim(worst), "replay": "harness promsel --cases <file with the case line>, then checks/promsel.py sem_verdict"},
-                         no_input=(code == 9))
+                         no_input=(code == 9 or bool(gap)))
             break
     return True
 
